@@ -1,3 +1,4 @@
+mod cmd_lin;
 mod cmd_backend;
 mod cmd_stages;
 mod cmd_fun2core;
@@ -90,6 +91,8 @@ fn main() {
         }
         "c10-x86" => cmd_backend::cmd_c10("x86", num(2, 1), num(3, 0) as usize, &mut *out, &args[5.min(args.len())..]),
         "pm" => cmd_pm(num(2, 1), num(3, 100) as usize, &mut *out),
+        "lin-show" => { cmd_lin::cmd_lin_show(num(2, 1)); return; }
+        "lin" => cmd_lin::cmd_lin(num(2, 1), num(3, 100) as usize, &mut *out, args.get(5..).unwrap_or(&[])),
         "stages" => cmd_stages::cmd_stages(num(2, 1), num(3, 0) as usize, args.get(5..).unwrap_or(&[]), &mut *out),
         "fun2core" => cmd_fun2core::cmd_fun2core(num(2, 1), num(3, 0) as usize, args.get(5..).unwrap_or(&[]), &mut *out),
         "rt" => cmd_rt::cmd_rt(num(2, 1), num(3, 100) as usize, &mut *out),
